@@ -146,6 +146,9 @@ def gen_case(rng, rich_criterion=False, small=False):
             style = "zero_budget_wallclock"
         elif u < 0.16:
             params["rerun"] = True
+    if params["criterion"].get("max_wallclock_time") is not None and rng.random() < 0.6:
+        # delay (fake clock) between constructing the Tuner and calling run(); the budget is for run()
+        params["construct_gap"] = rng.choice([0.25, 1.0, 7.5, 100.0])
     return dict(params=params, profile=profile, style=style, seed=rng.getrandbits(48))
 
 
@@ -456,7 +459,7 @@ def expected_criterion(crit, obs):
         # statistics of the delivered results computed by the harness itself (scripted.ScriptedBackend.truth), not the
         # ones TuningStatus keeps
         tr = obs["truth"]
-        obs = dict(obs, evaluations=tr["evaluations"], cost=tr["cost"],
+        obs = dict(obs, evaluations=tr["evaluations"], cost=tr["cost"], wallclock=tr.get("wallclock", obs["wallclock"]),
                    min_metrics={} if tr["min_m"] is None else {"m": tr["min_m"]},
                    max_metrics={} if tr["max_m"] is None else {"m": tr["max_m"]})
     for field, key in (("max_num_evaluations", "evaluations"), ("max_num_trials_started", "started"),
@@ -480,6 +483,13 @@ def check_stopping_criterion(params, out):
     crit = params.get("criterion") or {}
     obs_list = out.get("criterion_obs") or []
     for i, obs in enumerate(obs_list):
+        tw = (obs.get("truth") or {}).get("wallclock")
+        if crit.get("max_wallclock_time") is not None and tw is not None and abs(obs["wallclock"] - tw) > 1e-9:
+            return [("evaluation %d: TuningStatus.wallclock_time is %s but %s (fake clock) have passed since run() was entered; "
+                     "the Tuner was constructed %s before run(); max_wallclock_time=%s is a budget for the time spent in run()"
+                     % (i, obs["wallclock"], tw, params.get("construct_gap", 0.0), crit["max_wallclock_time"]),
+                     dict(check="stopping_criterion", field="max_wallclock_time",
+                          event="wallclock_not_measured_from_start_of_run"))]
         exp = expected_criterion(crit, obs)
         must = [f for f, v in exp.items() if v is True]
         undecided = [f for f, v in exp.items() if v is None]
